@@ -96,6 +96,62 @@ mod writer;
 mod tests;
 mod unaligned_vector;
 
+#[cfg(arroy_verif)]
+mod verif_hooks;
+
+/// Verification hooks: only compiled with `--cfg arroy_verif`, never part of the public API.
+#[cfg(arroy_verif)]
+#[allow(missing_docs)]
+pub mod verif {
+    pub use crate::parallel::ConcurrentNodeIds;
+    pub use crate::verif_hooks::set_yield_hook;
+    use crate::unaligned_vector::UnalignedVector;
+
+    pub fn euclidean_non_optimized(u: &UnalignedVector<f32>, v: &UnalignedVector<f32>) -> f32 {
+        crate::spaces::simple::euclidean_distance_non_optimized(u, v)
+    }
+
+    pub fn dot_non_optimized(u: &UnalignedVector<f32>, v: &UnalignedVector<f32>) -> f32 {
+        crate::spaces::simple::dot_product_non_optimized(u, v)
+    }
+
+    pub fn euclidean_dispatch(u: &UnalignedVector<f32>, v: &UnalignedVector<f32>) -> f32 {
+        crate::spaces::simple::euclidean_distance(u, v)
+    }
+
+    pub fn dot_dispatch(u: &UnalignedVector<f32>, v: &UnalignedVector<f32>) -> f32 {
+        crate::spaces::simple::dot_product(u, v)
+    }
+
+    /// # Safety
+    /// The CPU must support SSE.
+    #[cfg(target_arch = "x86_64")]
+    pub unsafe fn euclidean_sse(u: &UnalignedVector<f32>, v: &UnalignedVector<f32>) -> f32 {
+        crate::spaces::verif_export::euclid_similarity_sse(u, v)
+    }
+
+    /// # Safety
+    /// The CPU must support SSE.
+    #[cfg(target_arch = "x86_64")]
+    pub unsafe fn dot_sse(u: &UnalignedVector<f32>, v: &UnalignedVector<f32>) -> f32 {
+        crate::spaces::verif_export::dot_similarity_sse(u, v)
+    }
+
+    /// # Safety
+    /// The CPU must support AVX and FMA.
+    #[cfg(target_arch = "x86_64")]
+    pub unsafe fn euclidean_avx(u: &UnalignedVector<f32>, v: &UnalignedVector<f32>) -> f32 {
+        crate::spaces::verif_export::euclid_similarity_avx(u, v)
+    }
+
+    /// # Safety
+    /// The CPU must support AVX and FMA.
+    #[cfg(target_arch = "x86_64")]
+    pub unsafe fn dot_avx(u: &UnalignedVector<f32>, v: &UnalignedVector<f32>) -> f32 {
+        crate::spaces::verif_export::dot_similarity_avx(u, v)
+    }
+}
+
 pub use distance::Distance;
 pub use error::Error;
 
